@@ -33,12 +33,12 @@ type cowOp struct {
 }
 
 type cowCase struct {
-	Scenario  string  `json:"scenario"`
-	Container string  `json:"container"` // slice | array | struct
-	Elem      string  `json:"elem"`      // S | arr2
-	Init      []int   `json:"init"`
-	Cap       int     `json:"cap,omitempty"`
-	Ops       []cowOp `json:"ops"`
+	Scenario  string   `json:"scenario"`
+	Container string   `json:"container"` // slice | array | struct
+	Elem      string   `json:"elem"`      // S | arr2
+	Init      []int    `json:"init"`
+	Cap       int      `json:"cap,omitempty"`
+	Ops       []cowOp  `json:"ops"`
 	Script    []string `json:"script,omitempty"`
 }
 
